@@ -70,7 +70,9 @@ type CtxSpec struct {
 
 // StreamOp is one consumer operation.
 type StreamOp struct {
-	// Kind: frame (ReadBytes(0)) | raw (Read into N bytes) | write (Data)
+	// Kind: frame (ReadBytes(0)) | raw (Read into N bytes) | write (Data) |
+	// xsend / xrecv / xcall (client side only: Connection.Send, the receive
+	// function it returned, Connection.Call — judged for cancellation only)
 	Kind string  `json:"kind"`
 	N    int     `json:"n,omitempty"`
 	Data []byte  `json:"data,omitempty"`
@@ -118,7 +120,8 @@ func errClass(err error) string {
 }
 
 // runOps performs the operations on rw. serveCancel cancels the serving context (handler side).
-func (s *StreamScenario) runOps(rw varlink.ReadWriterContext, base context.Context, serveCancel func()) {
+func (s *StreamScenario) runOps(rw varlink.ReadWriterContext, base context.Context, serveCancel func(), conn *varlink.Connection) {
+	var recv func(context.Context, interface{}) (uint64, error)
 	for i, op := range s.Ops {
 		if op.PauseUs > 0 {
 			sim.Sleep(time.Duration(op.PauseUs) * time.Microsecond)
@@ -169,10 +172,47 @@ func (s *StreamScenario) runOps(rw varlink.ReadWriterContext, base context.Conte
 		case "write":
 			n, err := rw.Write(ctx, op.Data)
 			d.Err, d.N = errClass(err), n
+		case "xsend":
+			r, err := conn.Send(ctx, "a.b.M", json.RawMessage(`{"n":1}`), 0)
+			if err == nil {
+				recv = r
+			}
+			d.Err = apiErrClass(err)
+		case "xrecv":
+			if recv == nil {
+				d.Err = "skipped"
+				break
+			}
+			var out json.RawMessage
+			_, err := recv(ctx, &out)
+			d.Err = apiErrClass(err)
+		case "xcall":
+			var out json.RawMessage
+			d.Err = apiErrClass(conn.Call(ctx, "a.b.M", json.RawMessage(`{"n":2}`), &out))
 		}
 		sim.Rec("op.done", mustJSON(d))
 	}
 	sim.Rec("consumer.done", "")
+}
+
+// apiErrClass: like errClass, but a reply that arrived and could not be decoded
+// (the stream is not made of reply frames) or was a remote error counts as "nil":
+// these operations are only judged for what cancellation does to them.
+func apiErrClass(err error) string {
+	c := errClass(err)
+	if len(c) > 5 && c[:5] == "other" {
+		return "nil"
+	}
+	return c
+}
+
+func (s *StreamScenario) apiOps() bool {
+	for _, op := range s.Ops {
+		if len(op.Kind) > 0 && op.Kind[0] == 'x' {
+			return true
+		}
+	}
+	return false
 }
 
 type streamIface struct{ s *StreamScenario }
@@ -181,7 +221,7 @@ func (d *streamIface) VarlinkGetName() string        { return "a.b" }
 func (d *streamIface) VarlinkGetDescription() string { return "interface a.b" }
 func (d *streamIface) VarlinkDispatch(ctx context.Context, c varlink.Call, m string) error {
 	sim.Rec("consumer.task", "")
-	d.s.runOps(c.Conn, ctx, d.s.serveCancel)
+	d.s.runOps(c.Conn, ctx, d.s.serveCancel, nil)
 	// keep the connection until everything went quiet, then end it
 	sim.Await(sim.Cond{Kind: sim.CondQuiescent})
 	return errors.New("done")
@@ -292,7 +332,7 @@ func (s *StreamScenario) Setup(k *sim.Kernel) {
 				return
 			}
 			sim.Rec("upgraded", "")
-			s.runOps(rw, ctx, nil)
+			s.runOps(rw, ctx, nil, conn)
 		})
 		k.Spawn("peer", func() { s.peerTask(c.Server, true) })
 	case "handler":
@@ -489,7 +529,8 @@ func (s *StreamScenario) Check(k *sim.Kernel) []sim.Violation {
 		}
 		return false
 	}
-	if !match(0, 0) {
+	api := s.apiOps()
+	if !api && !match(0, 0) {
 		got := 0
 		for _, sg := range segs {
 			got += len(sg.data)
@@ -511,7 +552,7 @@ func (s *StreamScenario) Check(k *sim.Kernel) []sim.Violation {
 			}
 			continue
 		}
-		if !o.started || !quiet || lossy || !peerDone {
+		if !o.started || !quiet || lossy || !peerDone || api {
 			break
 		}
 		switch op.Kind {
@@ -527,7 +568,9 @@ func (s *StreamScenario) Check(k *sim.Kernel) []sim.Violation {
 		break
 	}
 	// ---- writes: what the consumer handed to the transport
-	out = append(out, s.checkWrites(k, ops)...)
+	if !api {
+		out = append(out, s.checkWrites(k, ops)...)
+	}
 	// ---- cancellation: prompt return, right error, live operations do not fail
 	for i, op := range s.Ops {
 		o := ops[i]
@@ -535,7 +578,7 @@ func (s *StreamScenario) Check(k *sim.Kernel) []sim.Violation {
 			break
 		}
 		if op.Ctx.Mode == "" {
-			if o.done && o.res.Err != "nil" && o.res.Err != "eof" && o.res.Err != "closed" && !prevServeCancel(s.Ops, i) && !(s.PeerEnd != "" && o.doneSeq > 0) {
+			if o.done && !api && o.res.Err != "nil" && o.res.Err != "eof" && o.res.Err != "closed" && !prevServeCancel(s.Ops, i) && !(s.PeerEnd != "" && o.doneSeq > 0) {
 				out = append(out, vio("live-context", "live-op-failed "+op.Kind+" "+classOnly(o.res.Err), "op %d (%s) had a live context but failed with %q", i, op.Kind, o.res.Err))
 			}
 			continue
@@ -866,9 +909,9 @@ func genStreamBase(g *Gen, prop string) *StreamScenario {
 func genC18(seed uint64, tier string) Scenario {
 	g := NewGen(seed, 0xC18)
 	s := genStreamBase(g, "C18")
-	s.Stream = genStreamBytes(g, 1+g.IntN(5), 300)
+	s.Stream = genStreamBytes(g, 1+g.IntN(5*deeper(tier)), 300)
 	s.Peer = genPeerWrites(g, len(s.peerBytes()))
-	s.Ops = genReadOps(g, 1+g.IntN(12))
+	s.Ops = genReadOps(g, 1+g.IntN(12*deeper(tier)))
 	if g.Pct(30) {
 		s.PeerEnd = g.Pick("close", "close", "abort")
 	}
@@ -884,7 +927,7 @@ func genC18(seed uint64, tier string) Scenario {
 func genC17(seed uint64, tier string) Scenario {
 	g := NewGen(seed, 0xC17)
 	s := genStreamBase(g, "C17")
-	s.Stream = genStreamBytes(g, 2+g.IntN(5), 200)
+	s.Stream = genStreamBytes(g, 2+g.IntN(5*deeper(tier)), 200)
 	total := len(s.peerBytes())
 	// the peer sends in pieces with pauses so that operations block in between
 	off := 0
@@ -902,7 +945,7 @@ func genC17(seed uint64, tier string) Scenario {
 			s.Peer = append(s.Peer, PeerAct{Op: "await", Trigger: sf("ev:cancel.fire:%d", 1+g.IntN(2))}, PeerAct{Op: "sleep", Us: g.IntN(10)})
 		}
 	}
-	nOps := 2 + g.IntN(8)
+	nOps := 2 + g.IntN(8*deeper(tier))
 	writes := g.Pct(35)
 	if writes {
 		// writers block on a tiny pipe whose reader starts late
@@ -951,6 +994,18 @@ func genC17(seed uint64, tier string) Scenario {
 		if op.Ctx.Mode == "servecancel" {
 			break
 		}
+	}
+	if s.Side == "client" && g.Pct(30) {
+		// the client API proper: Send, the receive function, Call
+		for i := range s.Ops {
+			switch s.Ops[i].Kind {
+			case "frame", "raw":
+				s.Ops[i].Kind = g.Pick("xrecv", "xcall", "xrecv")
+			case "write":
+				s.Ops[i].Kind = g.Pick("xsend", "xcall")
+			}
+		}
+		s.Ops = append([]StreamOp{{Kind: "xsend"}}, s.Ops...)
 	}
 	return s
 }
